@@ -10,6 +10,7 @@ import (
 	"pgregory.net/rapid"
 
 	"verif/evid"
+	"verif/gen/corpus"
 	"verif/xlate"
 )
 
@@ -24,6 +25,7 @@ func TestC03Triage(t *testing.T) {
 		n     int
 		text  string
 		short string
+		all   []string
 	}
 	fails := map[string]*ex{}
 	skips := map[string]int{}
@@ -39,9 +41,10 @@ func TestC03Triage(t *testing.T) {
 			msg := err.Error()
 			sig := triageSig(msg)
 			if e := fails[sig]; e == nil {
-				fails[sig] = &ex{1, msg, c.Query}
+				fails[sig] = &ex{1, msg, c.Query, []string{c.Query}}
 			} else {
 				e.n++
+				e.all = append(e.all, c.Query)
 				if len(c.Query) < len(e.short) {
 					e.short = c.Query
 					e.text = msg
@@ -79,11 +82,29 @@ func TestC03Triage(t *testing.T) {
 		if i >= 60 {
 			break
 		}
+		if d := os.Getenv("VERIF_TRIAGE_DUMP"); d != "" && strings.Contains(f.k, d) {
+			sort.Slice(f.e.all, func(i, j int) bool { return len(f.e.all[i]) < len(f.e.all[j]) })
+			for i, q := range f.e.all {
+				if i >= 25 {
+					break
+				}
+				t.Logf("   DUMP %s", q)
+			}
+		}
 		if os.Getenv("VERIF_TRIAGE_LONG") == "" {
 			t.Logf("FAIL x%d [%s]\n    %s", f.e.n, f.k, f.e.short)
 		} else {
 			t.Logf("FAIL x%d [%s]\n    %s", f.e.n, f.k, f.e.text)
 		}
+	}
+	if out := os.Getenv("VERIF_TRIAGE_OUT"); out != "" {
+		var sb strings.Builder
+		for _, f := range fl {
+			for _, q := range f.e.all {
+				sb.WriteString(f.k + "\t" + q + "\n")
+			}
+		}
+		_ = os.WriteFile(out, []byte(sb.String()), 0o644)
 	}
 	t.Logf("%d failures in %d clusters", nf, len(fl))
 }
@@ -124,4 +145,27 @@ var triageGens = map[string]func(*rapid.T) (Case, evid.Info, error){
 	"g4":            textTriage(genCaseG4),
 	"builder":       builderTriage(genBuilderCase(false)),
 	"builder-model": builderTriage(genBuilderCase(true)),
+}
+
+// TestC03CorpusTriage lists every corpus query that fails (development aid).
+func TestC03CorpusTriage(t *testing.T) {
+	if os.Getenv("VERIF_TRIAGE") != "corpus" {
+		t.Skip("development aid")
+	}
+	n, bad := 0, 0
+	skips := map[string]int{}
+	for i, q := range corpus.Queries() {
+		c := withParamValues(Case{Src: "corpus", Query: q}, i)
+		info, err := oracle(c)
+		n++
+		if err != nil {
+			bad++
+			t.Logf("FAIL [%s]\n    %s", triageSig(err.Error()), q)
+			continue
+		}
+		if info.Skip != "" {
+			skips[strings.SplitN(info.Skip, ":", 2)[0]]++
+		}
+	}
+	t.Logf("%d corpus queries, %d fail, skips %v", n, bad, skips)
 }
